@@ -183,7 +183,7 @@ Lemma check_with_accept m D :
              /\ locally_ok m D = true.
 Proof.
   unfold check_with, locally_ok.
-  destruct (first_reason (ci_ctx m) (all_contexts D)); [discriminate|].
+  destruct (first_reason (ci_ctx m) (conv_contexts D)); [discriminate|].
   destruct (run ustate0 (visits m 0 (all_contexts D))) as [st|]; [|discriminate].
   destruct (inst_loop m 0 (all_insts D) (written_in st)) eqn:Hi; [|discriminate].
   destruct (first_reason front_ctx (all_contexts D)); [discriminate|].
@@ -432,7 +432,7 @@ Theorem check_exact D :
   locally_ok Current D = true -> check D = Accept.
 Proof.
   intros Hdu [I1 I2] Hl. unfold check, check_with. unfold locally_ok in Hl.
-  destruct (first_reason (ci_ctx Current) (all_contexts D)); [discriminate|].
+  destruct (first_reason (ci_ctx Current) (conv_contexts D)); [discriminate|].
   destruct (first_reason front_ctx (all_contexts D)) eqn:Hfront; [discriminate|].
   fold (units D).
   assert (Hown : forall r o o' e e', In (o, e) (units D) -> In (o', e') (units D) ->
